@@ -306,6 +306,11 @@ func floatChain(v ssa.Value, seen map[ssa.Value]bool, chain *[]ssa.Value, risky 
 		if c, ok := x.Tuple.(*ssa.Call); ok && x.Index == 0 && calleeQualified(&c.Call) == "strconv.ParseFloat" {
 			*risky = append(*risky, x)
 		}
+		if c, ok := x.Tuple.(*ssa.Call); ok && x.Index == 0 {
+			if g := c.Call.StaticCallee(); g != nil && rawFloatFns[g] && !finiteFilter(g) {
+				*risky = append(*risky, x)
+			}
+		}
 	case *ssa.Call:
 		q := calleeQualified(&x.Call)
 		switch {
@@ -313,8 +318,48 @@ func floatChain(v ssa.Value, seen map[ssa.Value]bool, chain *[]ssa.Value, risky 
 			floatChain(x.Call.Args[0], seen, chain, risky, linear)
 		case riskyFloatCalls[q]:
 			*risky = append(*risky, x)
+		default:
+			if g := x.Call.StaticCallee(); g != nil && rawFloatFns[g] && !finiteFilter(g) {
+				*risky = append(*risky, x)
+			}
 		}
 	}
+}
+
+// rawFloatFns: unexported functions of package exec that return a computed
+// double unchecked and whose callers (all static, all in the package) carry
+// the obligation instead: a call of one is a risky source in its caller.
+var rawFloatFns = map[*ssa.Function]bool{}
+
+var finiteFilterMemo = map[*ssa.Function]int{}
+
+// finiteFilter: g returns a float64 first result that, on every return, is a
+// constant or a value known there to be neither Inf nor NaN (a parameter
+// handed back behind `!math.IsInf(x, 0) && !math.IsNaN(x)`).
+func finiteFilter(g *ssa.Function) bool {
+	if r, ok := finiteFilterMemo[g]; ok {
+		return r == 1
+	}
+	finiteFilterMemo[g] = 2
+	if g == nil || g.Blocks == nil || !inModule(g) || g.Signature.Results().Len() == 0 || !isFloat64(g.Signature.Results().At(0).Type()) {
+		return false
+	}
+	nparam := 0
+	for _, r := range expandedReturns(g) {
+		v := stripConv(r.Results[0])
+		if _, isC := v.(*ssa.Const); isC {
+			continue
+		}
+		if !finiteFact(r.Facts, v) {
+			return false
+		}
+		nparam++
+	}
+	if nparam == 0 {
+		return false
+	}
+	finiteFilterMemo[g] = 1
+	return true
 }
 
 var ruleFinite = &Rule{
@@ -324,18 +369,43 @@ var ruleFinite = &Rule{
 		out := newOut("R-FINITE")
 		ord := ordinals{}
 		n := 0
-		check := func(fn *ssa.Function, v ssa.Value, blk *ssa.BasicBlock, pos token.Pos, what string) {
+		// movable: the obligation for what fn returns can be its callers': fn is
+		// unexported and only ever called statically from package exec
+		movable := func(fn *ssa.Function) bool {
+			if fn.Object() == nil || fn.Object().Exported() || fn.Signature.Results().Len() == 0 || !isFloat64(fn.Signature.Results().At(0).Type()) {
+				return false
+			}
+			nd := p.CG.Nodes[fn]
+			if nd == nil || len(nd.In) == 0 {
+				return false
+			}
+			for _, e := range nd.In {
+				c, ok := e.Site.(*ssa.Call)
+				if !ok || c.Call.StaticCallee() != fn || fnPkgPath(e.Caller.Func) != pkgExec {
+					return false
+				}
+			}
+			return true
+		}
+		quiet := true // the pre-pass only finds the raw functions
+		var check func(fn *ssa.Function, v ssa.Value, blk *ssa.BasicBlock, pos token.Pos, what string)
+		check = func(fn *ssa.Function, v ssa.Value, blk *ssa.BasicBlock, pos token.Pos, what string) {
 			var chain, risky []ssa.Value
 			floatChain(v, map[ssa.Value]bool{}, &chain, &risky, true)
 			if len(risky) == 0 {
 				return
 			}
-			n++
-			key := fmt.Sprintf("%s: computed float %s #%d", fnName(fn), what, ord.next(fnName(fn)+what))
+			key := ""
+			if !quiet {
+				n++
+				key = fmt.Sprintf("%s: computed float %s #%d", fnName(fn), what, ord.next(fnName(fn)+what))
+			}
 			fs := factsAt(blk)
 			for _, x := range chain {
 				if isFloat64(x.Type()) && finiteFact(fs, x) {
-					out.ok(key, p.pos(pos), fnName(fn), "IsInf/IsNaN rejection dominates")
+					if !quiet {
+						out.ok(key, p.pos(pos), fnName(fn), "IsInf/IsNaN rejection dominates")
+					}
 					return
 				}
 			}
@@ -365,9 +435,22 @@ var ruleFinite = &Rule{
 					}
 				}
 				if all {
-					out.ok(key, p.pos(pos), fnName(fn), "every incoming computed value is checked with IsInf/IsNaN")
+					if !quiet {
+						out.ok(key, p.pos(pos), fnName(fn), "every incoming computed value is checked with IsInf/IsNaN")
+					}
 					return
 				}
+			}
+			if what == "returned" && isFloat64(v.Type()) && movable(fn) {
+				if quiet {
+					rawFloatFns[fn] = true
+				} else {
+					out.ok(key, p.pos(pos), fnName(fn), "the raw result of an unexported helper: its callers carry the check (the call is a computed value there)")
+				}
+				return
+			}
+			if quiet {
+				return
 			}
 			var srcs []string
 			for _, r := range risky {
@@ -376,6 +459,26 @@ var ruleFinite = &Rule{
 			sort.Strings(srcs)
 			out.viol(key, p.pos(pos), fnName(fn), "a computed double can be +Inf, -Inf or NaN and is "+what+" without a finiteness check (computed at "+strings.Join(uniq(srcs), ", ")+")")
 		}
+		// pre-pass: which helpers hand a raw result to their callers (to a fixpoint:
+		// a caller that passes it on unchecked is raw too)
+		for k := range rawFloatFns {
+			delete(rawFloatFns, k)
+		}
+		for iter := 0; iter < 4; iter++ {
+			before := len(rawFloatFns)
+			for _, fn := range p.execFuncs() {
+				for _, r := range returnsOf(fn) {
+					if len(r.Results) > 0 && isFloat64(r.Results[0].Type()) {
+						check(fn, r.Results[0], r.Instr.Block(), r.Instr.Pos(), "returned")
+					}
+				}
+			}
+			if len(rawFloatFns) == before {
+				break
+			}
+		}
+		quiet = false
+		out.Counts["helpers_returning_a_raw_result"] = len(rawFloatFns)
 		for _, fn := range p.execFuncs() {
 			for _, r := range returnsOf(fn) {
 				for _, v := range r.Results {
@@ -1068,7 +1171,7 @@ func init() {
 	register(ruleFinite, ruleDiv, ruleOvf, ruleF2I, ruleListIndex)
 	addProp(&PropSpec{
 		ID:          "C13",
-		Rules:       []string{"R-DIV", "R-OVF", "R-FINITE", "R-LISTINDEX", "R-TOWER", "R-F2I", "R-FOLD", "R-NUMLIT", "R-INPUT-RO", "R-PREC", "R-ERRFIRST", "R-ARITHOP"},
+		Rules:       []string{"R-DIV", "R-OVF", "R-FINITE", "R-LISTINDEX", "R-TOWER", "R-F2I", "R-FOLD", "R-NUMLIT", "R-INPUT-RO", "R-PREC", "R-ERRFIRST", "R-ARITHOP", "R-RESUPPRESS"},
 		Explanation: "'Exact or loud' as guard discipline on SSA instructions: every division on item values is zero-tested, every raw int64 operation on item values is reachable only behind an overflow test on the same operands (falling back to the double operation), every computed double is finiteness-checked before it can become an item, every operand sequence is length-tested before its single element is read, and the three numeric representations are handled together.",
 		Decided: []string{"R-DIV: zero tests dominate / and %, the zero branch is a suppressible error", "R-OVF: raw integer arithmetic only behind an overflow test (binary) or a MinInt64 test (unary)",
 			"R-FINITE: no Inf/NaN leaves a computing function", "R-LISTINDEX: singleton test before operand[0], failing branch suppressible", "R-TOWER: numeric representations are siblings"},
